@@ -58,7 +58,17 @@ let () = serve (fun fn req ->
     let can_sign b (held : utxo list) =
       let signing = (match jfield_opt builds.(int_of_nat b) "sign" with Some j -> jbool j | None -> false) in
       not signing || (not (locked && held <> []) && not (SL.exists (fun u -> SL.mem (string_of_n u.uid) unsignable) held)) in
-    let st = run use_lock (nat_of_int nb) (c03_choose fpb sh strat amount) more finish can_sign sched
+    (* a build that lists the funding accounts in its own order enumerates the rows in that order *)
+    let view b (snap : utxo list) =
+      match jfield_opt builds.(int_of_nat b) "order" with
+      | None | Some JNull -> snap
+      | Some j ->
+        let pos = Stdlib.Hashtbl.create 64 in
+        SL.iteri (fun i x -> Stdlib.Hashtbl.replace pos (string_of_n (jn x)) i) (jlist j);
+        let key u = (try Stdlib.Hashtbl.find pos (string_of_n u.uid) with Stdlib.Not_found -> Stdlib.max_int) in
+        SL.stable_sort (fun a b -> Stdlib.compare (key a) (key b)) snap in
+    let chooser b r snap = c03_choose fpb sh strat amount b r (view b snap) in
+    let st = run use_lock (nat_of_int nb) chooser more finish can_sign sched
                  (init (wallet_of_json (jfield req "wallet"))) in
     JObj [("builds", JArr (SL.init nb (fun i ->
              let b = st.bs (nat_of_int i) in
